@@ -62,8 +62,14 @@ def _run_harness_chunk(exe, cases, env):
     """Runs cases sequentially in one process; on a crash records it and restarts
     with the next case."""
     i = 0
+    hangs = 0
     while i < len(cases):
         batch = cases[i:]
+        if hangs >= 2:
+            # (two cases of this chunk never returned: the run is a failed one already - the rest is not waited for)
+            for c in batch:
+                c.h = ["skipped"] * len(c.lines)
+            return
         inp = "".join(l + "\n" for c in batch for l in c.lines)
         try:
             p = subprocess.run([exe], input=inp, capture_output=True, text=True, env=env, errors="replace",
@@ -75,6 +81,7 @@ def _run_harness_chunk(exe, cases, env):
             p.stdout = (te.stdout or b"").decode(errors="replace") if isinstance(te.stdout, bytes) else (te.stdout or "")
             p.stderr = "HANG"
             p.returncode = -999
+            hangs += 1
         outs = p.stdout.split("\n")
         if outs and outs[-1] == "":
             outs.pop()
